@@ -756,3 +756,64 @@ pub fn generate_and_bind(par: &str, k_limit: usize, cfg: &GenCfg) -> Result<(Gen
     let b = bind(&g.parser_src).map_err(|m| PipeErr { stage: Stage::Generate, msg: format!("BIND: {m}") })?;
     Ok((g, b))
 }
+
+// ---------------------------------------------------------------------------------------------
+// the real Builder (files in a scratch directory)
+// ---------------------------------------------------------------------------------------------
+
+pub struct Built {
+    pub parser: String,
+    pub actions: String,
+    pub expanded: String,
+}
+
+static BUILD_COUNTER: std::sync::atomic::AtomicU64 = std::sync::atomic::AtomicU64::new(0);
+
+/// Run `parol::build::Builder` exactly as a build script would (explicit output directory),
+/// returning the generated parser, trait/AST source and expanded grammar.
+pub fn builder_generate(par: &str, k: usize, cfg: &GenCfg) -> Result<Built, String> {
+    let n = BUILD_COUNTER.fetch_add(1, std::sync::atomic::Ordering::Relaxed);
+    let dir = crate::common::verif_root().join(".build").join("tmp").join(format!("b{}-{}", std::process::id(), n));
+    std::fs::create_dir_all(&dir).map_err(|e| e.to_string())?;
+    let gf = dir.join("g.par");
+    std::fs::write(&gf, par).map_err(|e| e.to_string())?;
+    let mut b = parol::build::Builder::with_explicit_output_dir(&dir);
+    b.grammar_file(&gf)
+        .parser_output_file("parser.rs")
+        .actions_output_file("grammar_trait.rs")
+        .expanded_grammar_output_file("g-exp.par")
+        .user_type_name("Gram")
+        .user_trait_module_name("gram")
+        .set_cargo_integration(false);
+    let b = b.max_lookahead(k).map_err(|e| format!("{e}"))?;
+    if cfg.min_boxed {
+        b.minimize_boxed_types();
+    }
+    if cfg.range {
+        b.range();
+    }
+    if cfg.node_kind_enums {
+        b.node_kind_enums();
+        b.node_kind_enums_output_file("node_kind.rs");
+    }
+    if cfg.trim {
+        b.trim_parse_tree();
+    }
+    if cfg.recovery_disabled {
+        b.disable_recovery();
+    }
+    if let Some(d) = cfg.max_depth {
+        b.max_parsing_depth(d);
+    }
+    let r = b.generate_parser();
+    let res = match r {
+        Ok(()) => Ok(Built {
+            parser: std::fs::read_to_string(dir.join("parser.rs")).unwrap_or_default(),
+            actions: std::fs::read_to_string(dir.join("grammar_trait.rs")).unwrap_or_default(),
+            expanded: std::fs::read_to_string(dir.join("g-exp.par")).unwrap_or_default(),
+        }),
+        Err(e) => Err(fmt_err(&e)),
+    };
+    let _ = std::fs::remove_dir_all(&dir);
+    res
+}
